@@ -657,6 +657,16 @@ func (c *Ctx) isImmutableMap(name string) bool {
 			}
 		}
 	}
+	// callrule clause `immutable T.field`: assumed constant while a function the rule is
+	// active in runs (e.g. a field only written under a lock the function holds for reading)
+	for _, r := range c.activeRules {
+		for _, pat := range r.Immutable {
+			if c.assignMatches(pat, name) {
+				c.definesUsed["callrule "+r.Name+": "+pat+" is assumed constant during one invocation"] = true
+				return true
+			}
+		}
+	}
 	return false
 }
 
